@@ -117,6 +117,13 @@ def classify_advance(F, body, e, depth=0):
         if sfx(s[1], "LineCruncher::pos"):
             return "cruncher pos()"
         if s[1].endswith("String::len") or s[1].endswith("<impl str>::len"):
+            # ... of the remaining text itself, not of a trimmed / split piece of it (REM and DATA extend to the end of their text:
+            # advancing by `text.trim_end().len()` leaves the token's range short of what the token consumed)
+            cut = [x[1].split("::")[-1] for x in expr_calls(s[2][0]) if x[1].split("::")[-1] in
+                   ("trim", "trim_end", "trim_start", "trim_matches", "trim_end_matches", "trim_start_matches", "strip_suffix", "strip_prefix",
+                    "split", "split_once", "rsplit", "split_whitespace", "replace", "to_uppercase", "to_lowercase", "lines")]
+            if cut:
+                return None
             return "byte length of text consumed verbatim"
     if s[0] == "place" and s[1][0] == "binop" and s[1][1] in ("AddWithOverflow", "SubWithOverflow"):
         a = classify_advance(F, body, s[1][2], depth + 1)
